@@ -100,6 +100,23 @@ def r2(ctx):
             ok_inc = x[0] == "bin" and x[1] == "Add" and T.I(1, "u8") in (x[2], x[3])
     ctx.ob("ThreeFold::add", entry and ins0 and ok_ret and ok_inc, f"ThreeFold::add: entry(board)={entry}, or_insert(0)={ins0}, += 1: {ok_inc}, == 3: {ok_ret}", site=body.get("def_span"),
            sample="*entry(board).or_insert(0) += 1; == 3")
+    # nothing is ever forgotten: the only map operation in add is entry(); no other function borrows the table mutably
+    map_calls = [c for c in calls if "hash::map::HashMap::<" in c or "hash::map::HashMap<" in c]
+    ctx.ob("add only inserts/increments", bool(map_calls) and all(c.endswith("::entry") for c in map_calls),
+           f"ThreeFold::add performs {[c.rsplit('::', 1)[-1] for c in map_calls]} on the repetition table; anything but entry() (clear, remove, retain, ...) forgets occurrences that a later repetition must count",
+           site=body.get("def_span"), sample=[c.rsplit("::", 1)[-1] for c in map_calls])
+    TF = "chess_engine::ThreeFold"
+    muts = set()
+    for k, b in P.fns.items():
+        if b["crate"] not in ("chess_engine", "chess_bot", "chess_api", "chess_cli-bin", "chess_wasm"):
+            continue
+        for blk in b["blocks"]:
+            for s in blk["s"]:
+                r = s.get("r", {})
+                pl = r.get("p") if r.get("k") in ("ref", "rawptr") and (r.get("bk") == "mut" or str(r.get("m", "")).startswith("Mut")) else (s["p"] if s["k"] == "assign" else None)
+                if pl and any(isinstance(e, dict) and e.get("a") == TF and e.get("n") == "boards" for e in pl["pj"]):
+                    muts.add(b.get("owner", k))
+    ctx.ob("who-may-mutate the repetition table", muts <= {ADD}, f"ThreeFold.boards is written or mutably borrowed in {sorted(muts - {ADD})} besides ThreeFold::add", sample=sorted(muts))
     key_ty = P.adt("chess_engine::ThreeFold")["variants"][0]["fields"][0]["ty"]
     ctx.ob("table keyed by Board", key_ty.startswith("std::collections::hash::map::HashMap<chess_movegen::Board, u8"), f"ThreeFold.boards: {key_ty}", sample=key_ty[:80])
     ctx.used_body(NEW)
@@ -185,6 +202,13 @@ def _set_board_keeps_table(P):
         t = blk["t"]
         if t["k"] == "call" and t["f"].get("fn") == NEW:
             t["f"]["fn"] = t["f"]["fn_args"] = "chess_engine::ThreeFold::keep"
+
+@rule("C15.R6", "premise: Board::move_mut applies a move only if it is in the generated legal list (C02.R6 re-run)")
+def r_premise(ctx):
+    from analysis.runner import premise
+    premise(ctx, "C02", {'C02.R6'}, "the plugin's legality gate is Board::move_mut; its legality test is no longer membership in the full legal move list")
+
+
 
 
 CONTROLS = [
